@@ -2,12 +2,14 @@ package drive
 
 import (
 	"context"
+	"encoding/json"
 	"errors"
 	"fmt"
 	"net/url"
 	"reflect"
 	"sort"
 	"strings"
+	"sync"
 	"time"
 
 	"github.com/ory/fosite"
@@ -102,7 +104,38 @@ func resClass(err error) string {
 
 func errWire(err error) string {
 	rfc := fosite.ErrorToRFC6749Error(err)
+	noteLeak(rfc)
 	return fmt.Sprintf("%s/%d", rfc.ErrorField, rfc.CodeField)
+}
+
+// leakMark is carried by every injected storage error (as a real store's error would carry table names, keys or
+// driver text).  What a client is shown of an error - the RFC error rendered without debug exposure - must not
+// contain it (C20).
+const leakMark = "LEAKMARK"
+
+var (
+	leakMu sync.Mutex
+	leaks  []string
+)
+
+func noteLeak(rfc *fosite.RFC6749Error) {
+	js, err := json.Marshal(rfc.WithExposeDebug(false))
+	if err != nil {
+		return
+	}
+	if strings.Contains(string(js), leakMark) {
+		leakMu.Lock()
+		leaks = append(leaks, "response:internal-detail:"+rfc.ErrorField)
+		leakMu.Unlock()
+	}
+}
+
+func takeLeaks() []string {
+	leakMu.Lock()
+	defer leakMu.Unlock()
+	out := leaks
+	leaks = nil
+	return out
 }
 
 func (s *recStore) log(format string, a ...interface{}) {
@@ -209,15 +242,15 @@ func (s *recStore) fault() error {
 	case "":
 		return nil
 	case "generic":
-		return errors.New("injected storage failure")
+		return errors.New("injected storage failure " + leakMark + " pq: connection reset (dsn=postgres://svc:pw@db/prod)")
 	case "not_found":
-		return fosite.ErrNotFound
+		return fmt.Errorf(leakMark+" sql: no rows in result set (table=oauth2_records): %w", fosite.ErrNotFound)
 	case "inactive":
-		return fosite.ErrInactiveToken
+		return fmt.Errorf(leakMark+" record inactive (table=oauth2_records): %w", fosite.ErrInactiveToken)
 	case "serialization":
-		return fosite.ErrSerializationFailure
+		return fmt.Errorf(leakMark+" pq: could not serialize access due to concurrent update: %w", fosite.ErrSerializationFailure)
 	}
-	return errors.New("injected storage failure")
+	return errors.New("injected storage failure " + leakMark)
 }
 
 func (s *recStore) GetClient(ctx context.Context, id string) (fosite.Client, error) {
